@@ -82,7 +82,7 @@ LinkApp(l, x) == P!LinkAppend(l, x)
 \* ---------------------------------------------------------------- start-up
 NegTx(o) ==
     /\ pc = "neg" /\ negLeft > 0
-    /\ o = "A" \/ negLossLeft > 0
+    /\ o # "A" => negLossLeft > 0
     /\ negLossLeft' = IF o = "A" THEN negLossLeft ELSE negLossLeft - 1
     /\ LET r == P!PeerRx(peer, P!NegFrame)
            rep == P!UsbReply(o, r.ack)
@@ -107,7 +107,7 @@ Wire == IF hasSL THEN <<P!WithBits(frame[1], hUp, hDown)>> \o Tail(frame) ELSE f
 
 DataTx(o) ==
     /\ pc = "tx"
-    /\ o = "A" \/ lossLeft > 0
+    /\ o # "A" => lossLeft > 0
     /\ lossLeft' = IF o = "A" THEN lossLeft ELSE lossLeft - 1
     /\ LET w == Wire
            r == P!PeerRx(peer, w)
